@@ -1,0 +1,6 @@
+//go:build !verif
+
+package parsley
+
+// verifPoint is a no-op in normal builds (see verif_hook_on.go).
+func verifPoint() {}
